@@ -43,8 +43,8 @@ prop('C03', units=['bk'], level='proof',
      witnesses=[])
 
 prop('C04', units=['bk', 'agg', 'drv', 'rnd'], level='proof',
-     technique='Verus: type invariant of ConstrainedDecimal (>= 0), sum invariant wf() of the affiliate status table, delta_for_tx Err <==> step_reject, prefix invariant of the ledger (the partial ledger of a rejected security is a prefix of a correct one), gains table over exactly the accepted ledgers, driver: an error stays with its security; run_acb_app_to_render_model: the table of a rejected security carries its rejection message; witnesses for message visibility in the writers',
-     level_text='Deductive proof (Verus) of non-negativity, all-affiliate total = sum, registered => no cost base/gain, rejection iff impossible (model E), correct prefix before an error, exclusion of a rejected security from every gains total, and that the rejection message is attached to that security\'s table in the render model. How the two writers print a table (text / CSV) is outside contracts and watched by witness D5.',
+     technique='Verus: type invariant of ConstrainedDecimal (>= 0), sum invariant wf() of the affiliate status table, delta_for_tx Err <==> step_reject, prefix invariant of the ledger (the partial ledger of a rejected security is a prefix of a correct one), gains table over exactly the accepted ledgers, driver: an error stays with its security; run_acb_app_to_render_model: the table of a rejected security carries its rejection message; write_render_result: every security\'s table is handed to the writer (trait AcbWriter with a ghost log of what was printed); witnesses for message visibility in the writers',
+     level_text='Deductive proof (Verus) of non-negativity, all-affiliate total = sum, registered => no cost base/gain, rejection iff impossible (model E), correct prefix before an error, exclusion of a rejected security from every gains total, that the rejection message is attached to that security\'s table in the render model, and that every table is handed to the output writer. How the two writers print a table (text / CSV) is outside contracts and watched by witness D5.',
      level_note=BK_NOTE + ' D13 (rounded split factor) is invisible to model E and guarded by its witness only.',
      not_covered=['TextWriter / CsvWriter: printing of the errors of a table (tabled / csv crates; witness D5)', 'rounded-factor acceptance (D13, witness only)'],
      witnesses=['D5', 'D13', 'D15'])
@@ -117,9 +117,9 @@ prop('C10', units=['summary', 'bk', 'smd'], level='proof',
      not_covered=['that the re-run accepts the explicit superficial-loss amounts (validation against the recomputed value, 0.001 tolerance)', 'round trip in annual-gains mode', 'CSV text of the summary: number / date / ratio formatting and parsing (C11); the structured row layer under it is covered'],
      witnesses=['D3', 'D16'])
 
-prop('C12', units=['fx', 'bk'], level='proof',
+prop('C12', units=['fx', 'bk', 'drv'], level='proof',
      technique='Verus: get_effective_usd_cad_rate == oracle (rate of the day, else most recent published day within 7 before; never later/zero/older; Err for today-or-later without rate); load_rate_if_needed / load_tx_rates (explicit rate wins, CAD needs none, non-USD Err, keyed on trade date, frame); Tx::try_from currency/rate rules',
-     level_text='Deductive proof (Verus) against an oracle of published rates, for all dates within years 0..=9998 and all cache states; row completion proved with a whole-row frame.',
+     level_text='Deductive proof (Verus) against an oracle of published rates, for all dates within years 0..=9998 and all cache states; row completion proved with a whole-row frame; the driver hands no row on that still lacks a rate (asserted after its call of load_tx_rates).',
      level_note=BK_NOTE + ' RemoteRateLoader returns exactly what was published (HTTP/JSON not verified); three calendar axioms about time::Date; async removed.',
      not_covered=['JSON parsing and inversion of daily observations', 'BC dates / year 9999 saturation corner'],
      witnesses=[])
